@@ -40,7 +40,7 @@ func (i *In) parseHash(
 			return err
 		}
 
-		if nextT.IsTargetIdentifier("}") {
+		if nextT == nil || nextT.IsTargetIdentifier("}") {
 			break
 		}
 
@@ -69,6 +69,10 @@ func (i *In) parseArray(
 		nextT, err := p.Read()
 		if err != nil {
 			return err
+		}
+
+		if nextT == nil {
+			break
 		}
 
 		if nextT.IsVariableIdentifier() {
@@ -137,7 +141,7 @@ func (i *In) parseParentheses(p *parser.Parser, ctx context.Context) error {
 			i.parseVariable(ctx, nextT)
 		}
 
-		if nextT.IsTargetIdentifier(")") {
+		if nextT == nil || nextT.IsTargetIdentifier(")") {
 			break
 		}
 	}
@@ -379,7 +383,7 @@ func (i *In) Evaluation(
 			return err
 		}
 
-		if nextT.IsNewLineIdentifier() {
+		if nextT == nil || nextT.IsNewLineIdentifier() {
 			break
 		}
 
